@@ -69,7 +69,7 @@ func runC19(c *Ctx, r *Report) {
 	r.Doc("R-C19.3", "first-write-wins is the exact reverse of last-write-wins")
 	r.Doc("R-C19.4", "clock comparison is antisymmetric and transitive and ordered by time first")
 	r.Doc("R-C19.5", "Sort's less is f<0 (f>0 when reversed) of the given comparator on (values[i], values[j]); errors map to false")
-	r.Doc("R-C19.6", "no comparator result depends on whether the integer subtraction of clock times overflowed")
+	r.Doc("R-C19.6", "no comparator result depends on whether the integer subtraction of clock times overflowed or produced the most negative integer")
 
 	// implementers
 	cg := c.CG
@@ -194,8 +194,8 @@ func runC19(c *Ctx, r *Report) {
 		for _, st := range signs {
 			for _, si := range signs {
 				var first *cmpResult
-				for mask := 0; mask < 2; mask++ {
-					ci := &cmpInterp{p: p, sig: [3]int{st, si, 0}, choices: []bool{mask == 1}, entryImp: entryImp, clockImp: clockImp}
+				for mask := 0; mask < 4; mask++ {
+					ci := &cmpInterp{p: p, sig: [3]int{st, si, 0}, choices: []bool{mask&1 != 0, mask&2 != 0}, entryImp: entryImp, clockImp: clockImp}
 					var res cmpResult
 					func() {
 						defer func() {
@@ -429,12 +429,12 @@ func runC19(c *Ctx, r *Report) {
 				used = true
 			}
 		})
-		msg := pr.n + " gives the same answer whether or not the time subtraction wraps"
+		msg := pr.n + " gives the same answer whether or not the time subtraction wraps or lands on the most negative integer"
 		if !used {
 			msg = pr.n + " compares clock times without overflow-prone subtraction (or guards it)"
 		}
 		ob("R-C19.6", pr.n+":overflow-independent", bad == "", msg,
-			pr.n+" decides by the sign of an integer subtraction of clock times that can overflow (e.g. MaxInt vs a negative time from a decoded block): the comparison then reports the same direction both ways — not antisymmetric ("+bad+")")
+			pr.n+" decides by the sign of an integer subtraction of clock times whose machine result can differ from the mathematical one: it can wrap (e.g. MaxInt vs a negative time from a decoded block) or be exactly the most negative integer, which negation maps to itself (times −2^62 and 2^62). The comparison then reports the same direction both ways — not antisymmetric / not the exact reverse ("+bad+")")
 	}
 	r.Tables["exhaustive"] = true
 	_ = ssa.Value(nil)
